@@ -158,6 +158,9 @@ def build_nested(depth, P):
         if P("s1_cap_b"):
             s1_in.append(b.outputs[0])
         s1 = ir.Node("", "S1", s1_in, name="s1")
+        if P("s0_uses_s1"):  # together with s1_uses_s0: a cycle confined to the body
+            s0.resize_inputs(len(s0.inputs) + 1)
+            s0.replace_input_with(len(s0.inputs) - 1, s1.outputs[0])
         inner_nodes = [s0, s1]
     else:
         t0_in = [x]
@@ -277,7 +280,7 @@ def make_case(tier, key):
     else:
         _, depth = key
         names = ["a_uses_b", "b_uses_a", "s0_cap_a", "s0_cap_b", "inner_reversed", "ctl_uses_b", "a_uses_ctl"]
-        names += ["s1_uses_s0", "s1_cap_b"] if depth == 2 else ["t0_cap_a", "t0_cap_s0"]
+        names += ["s1_uses_s0", "s1_cap_b", "s0_uses_s1"] if depth == 2 else ["t0_cap_a", "t0_cap_s0"]
         ranges = {n: (0, 1) for n in names}
         ranges["perm"] = (0, 5)
 
